@@ -2,9 +2,9 @@ INIT Init
 NEXT Next
 CONSTANTS
   NRegs = 3
-  BaseSeq <- CatSeq
+  BaseSeq <- CatSmallSeq
   BaseEq <- CatEq
-  Scales <- S_Wide
+  Scales <- S_T
   MaxLen = 5
   Queries <- Q_All
   TerminalQueries = TRUE
